@@ -79,7 +79,7 @@ fn setup(algorithm: Algorithm) -> (Arc<LoadBalanceConnector>, Arc<GlobalState>, 
     let start: usize = kani::any();
     // no-wrap precondition of the fairness law (as in the Verus lemma, which covers the whole range); the bounded
     // decider keeps the cursor small because a symbolic 64-bit `%` is the expensive part for CBMC
-    kani::assume(start < 4096);
+    kani::assume(start < 8);
     let lb = LoadBalanceConnector { name: Name(200), connectors: Vec { items: [Name(0), Name(1), Name(2)], len: n }, algorithm, idx: AtomicUsize::new(start), hash_by: Some(KeyExpr(0)) };
     let st = GlobalState { connectors: ConnMap { conns: [Arc::new(Member(0)), Arc::new(Member(1)), Arc::new(Member(2))] } };
     (Arc::new(lb), Arc::new(st), n)
